@@ -1,1 +1,201 @@
-(* C01 - to be filled *)
+(* C01 - Every listed input section is placed exactly once, inside its own segment and section group.
+   Only statements, each closed by [exact]; see Proofs/C01.v.  The declarative description of what an
+   entry contributes ([leaves], [EntryStmts], [Expands], [Reaches]) is in Spec/C01.v; Properties/C02.v
+   (C02_order, C02_order_files) shows that the writer's output meets it. *)
+From Slinky Require Import Model.Types Model.Runtime Model.Style Model.Script Model.Writer Model.LdSem.
+From Slinky Require Import Spec.C09 Spec.C02 Proofs.C01.
+From Coq Require Import ZArith Permutation.
+
+(* ---------- no statement names something the document does not list ---------- *)
+
+(* every input statement among the files of a group names (displayed path, member) of a leaf of the
+   segment's file list - an included object or archive entry, under the directories of the groups above
+   it - and a section reached from the group's section through the chain of entries above the leaf:
+   at each entry, the section itself unless section_order redirects it, a section_order key mapped to
+   it, or a sub-group member of such a section.  No hypothesis. *)
+Theorem C01_nothing_unlisted : forall rt sty cfg seg sections base_path section ws l ws',
+  emit_section rt sty cfg seg sections base_path section ws = Ok (l, ws') ->
+  exists b, forall s, In s l -> is_input s = true ->
+    exists c0, In c0 (sg_files seg) /\
+    exists c bc chain, In (c, bc, chain) (leaves rt b c0) /\ names_leaf rt seg c bc (input_section s) s /\
+                       reach_via cfg seg sections chain section (input_section s).
+Proof. exact nothing_unlisted. Qed.
+
+(* the first step of [Reaches], spelled out without the sort *)
+Theorem C01_here_spec : forall sections f section k, In k (here sections f section) <-> here_spec f section k.
+Proof. exact in_here. Qed.
+
+(* ---------- exactly one input statement per configured section ---------- *)
+
+(* the sections written for one entry that is not a group over all groups of a segment: when the
+   sub-groups form a forest below the configured sections and the entry's section_order only moves
+   configured sections to configured sections, every section of the closure is written exactly once,
+   and nothing else *)
+Theorem C01_each_once_keys : forall cfg seg f,
+  WF_subgroups seg -> WF_section_order seg f -> fi_kind f <> KGroup ->
+  forall Keys,
+  Forall2 (fun s keys => exists sections, Expands cfg seg sections f s keys) (configured seg) Keys ->
+  NoDup (List.concat Keys) /\
+  (forall k, In k (List.concat Keys) <-> InClosure cfg seg (configured seg) k).
+Proof. exact each_once_keys. Qed.
+
+(* a group does not follow the sub-groups itself: it asks its entries for the sections of [here], and
+   over all groups of a segment that is every configured section exactly once *)
+Theorem C01_group_keys : forall cfg seg sections f s l,
+  fi_kind f = KGroup -> Expands cfg seg sections f s l -> l = here sections f s.
+Proof. exact expands_group. Qed.
+
+Theorem C01_group_asks_each_once : forall seg f V Hs,
+  WF_subgroups seg -> WF_section_order seg f -> Permutation V (configured seg) ->
+  Forall2 (fun s h => exists sections, h = here sections f s) V Hs ->
+  Permutation (List.concat Hs) (configured seg).
+Proof. exact group_asks_each_once. Qed.
+
+(* hence for an included object / archive entry listed directly in the segment: its statements over
+   all groups (allocatable and noload, each written with its own section list) are input statements
+   naming that entry, exactly one for every section of the closure of the configured sections *)
+Theorem C01_each_once : forall rt sty cfg seg f base ls,
+  WF_subgroups seg -> WF_section_order seg f ->
+  (fi_kind f = KObject \/ fi_kind f = KArchive) -> should_emit rt (fi_conds f) = true ->
+  Forall2 (fun s l => exists sections, EntryStmts rt sty cfg seg sections f s base l) (configured seg) ls ->
+  inputs_of (List.concat ls) = List.concat ls /\
+  NoDup (map input_section (List.concat ls)) /\
+  (forall k, In k (map input_section (List.concat ls)) <-> InClosure cfg seg (configured seg) k) /\
+  Forall (fun st => names_leaf rt seg f base (input_section st) st) (List.concat ls).
+Proof. exact each_once. Qed.
+
+(* the hypotheses can be met: section_order and sub-groups together *)
+Example C01_each_once_example :
+  let seg := c01_seg [c01_obj "a.o" []; c01_obj "m.o" [(".data", ".text")]] [".text"; ".data"] [".bss"]
+                     [(".data", [".data.x"])] in
+  WF_subgroups seg /\ WF_section_order seg (c01_obj "m.o" [(".data", ".text")]) /\
+  inputs_of_doc (c01_doc [c01_obj "a.o" []; c01_obj "m.o" [(".data", ".text")]] [".text"; ".data"] [".bss"]
+                         [(".data", [".data.x"])]) =
+  ["a.o(.text)"; "m.o(.text)"; "m.o(.data)"; "m.o(.data.x)"; "a.o(.data)"; "a.o(.data.x)"; "a.o(.bss)"; "m.o(.bss)"].
+Proof. exact each_once_example. Qed.
+
+(* entries at any depth inside groups: for an entry of the segment's list (or of any list of entries),
+   the input statements written over the groups of all configured sections are, up to order, one part
+   per leaf below it ([leaves]: the included object / archive entries, with the directories of the
+   groups above them), and the part of a leaf is exactly one input statement naming it for every
+   section of the closure.  The section_order of every entry on the way (groups included) only moves
+   configured sections to configured sections. *)
+Theorem C01_each_once_deep : forall rt sty cfg seg f base ls,
+  WF_subgroups seg -> WF_section_order_deep seg f ->
+  Forall2 (fun s l => exists sections, EntryStmts rt sty cfg seg sections f s base l) (configured seg) ls ->
+  exists parts, Permutation (inputs_of (List.concat ls)) (List.concat parts) /\
+                Forall2 (leaf_once rt cfg seg) (leaves rt base f) parts.
+Proof. exact each_once_deep. Qed.
+
+Theorem C01_each_once_files : forall rt sty cfg seg files base rows,
+  WF_subgroups seg -> Forall (WF_section_order_deep seg) files ->
+  Forall2 (fun s l => exists sections, KidsStmts rt sty cfg seg sections files s base l) (configured seg) rows ->
+  exists parts, Permutation (inputs_of (List.concat rows)) (List.concat parts) /\
+                Forall2 (leaf_once rt cfg seg) (flat_map (leaves rt base) files) parts.
+Proof. exact each_once_files. Qed.
+
+(* ... and for the writer: what emit_section returns for the files of a segment, over all configured
+   sections (each group written with its own section list and from any state) *)
+Theorem C01_each_once_segment : forall rt sty cfg seg base_path b rows,
+  WF_subgroups seg -> Forall (WF_section_order_deep seg) (sg_files seg) ->
+  (exists b0, escape_path rt base_path = Ok b0 /\
+              (if reference_partial cfg then b = b0
+               else exists d, escape_path rt (sg_dir seg) = Ok d /\ b = push b0 d)) ->
+  Forall2 (fun s l => exists sections ws ws',
+               emit_section rt sty cfg seg sections base_path s ws = Ok (l, ws')) (configured seg) rows ->
+  exists parts, Permutation (inputs_of (List.concat rows)) (List.concat parts) /\
+                Forall2 (leaf_once rt cfg seg) (flat_map (leaves rt b) (sg_files seg)) parts.
+Proof. exact each_once_segment. Qed.
+
+(* REPAIRED (was the finding C01_refuted_group_subgroups: sub-groups were expanded once for a group and
+   once more for each of its entries, so a file inside a group got two statements for every sub-group
+   section): the same document now yields every statement once; it meets the hypotheses of
+   C01_each_once_deep *)
+Example C01_group_subgroups_once :
+  let g := c01_group "g" [c01_obj "a.o" []] in
+  let seg := c01_seg [g] [".text"] [".bss"] [(".text", [".text.hot"])] in
+  WF_subgroups seg /\ WF_section_order_deep seg g /\
+  inputs_of_doc (c01_doc [g] [".text"] [".bss"] [(".text", [".text.hot"])]) =
+  ["g/a.o(.text)"; "g/a.o(.text.hot)"; "g/a.o(.bss)"].
+Proof. exact group_subgroups_once. Qed.
+
+(* ---------- KNOWN FINDINGS ---------- *)
+
+(* a section_order destination that is not among the segment's sections silently drops the section:
+   with alloc_sections [.text, .data] and section_order {.data: .rodata} nothing names m.o(.data) *)
+Theorem C01_refuted_dropped_section :
+  inputs_of_doc (c01_doc [c01_obj "a.o" []; c01_obj "m.o" [(".data", ".rodata")]] [".text"; ".data"] [".bss"] []) =
+  ["a.o(.text)"; "m.o(.text)"; "a.o(.data)"; "a.o(.bss)"; "m.o(.bss)"].
+Proof. exact refuted_dropped_section. Qed.
+
+(* a duplicate entry in alloc_sections places every file twice *)
+Theorem C01_refuted_duplicate_list :
+  inputs_of_doc (c01_doc [c01_obj "a.o" []] [".text"; ".text"] [".bss"] []) =
+  ["a.o(.text)"; "a.o(.text)"; "a.o(.bss)"].
+Proof. exact refuted_duplicate_list. Qed.
+
+Local Open Scope Z_scope.
+
+(* ---------- after linking ---------- *)
+
+(* executing any script from a state with non-negative sizes: every input section that gets placed
+   lies inside [vma, vma + size] of an output section laid out by the same script, carrying its name;
+   nothing is ever removed from the placements; what is discarded was waiting at that moment *)
+Theorem C01_placed_in_section : forall env ext senv final script st,
+  nonneg_sizes (l_remaining st) ->
+  let st' := exec_script env senv ext final script st in
+  nonneg_sizes (l_remaining st') /\
+  incl (l_remaining st') (l_remaining st) /\
+  (exists extra, l_discarded st' = (l_discarded st ++ extra)%list /\ incl extra (map u_marker (l_remaining st))) /\
+  exists new secs, l_placed st' = (l_placed st ++ new)%list /\ l_secs st' = (l_secs st ++ secs)%list /\
+                   Forall (in_some_section secs) new.
+Proof. exact script_post. Qed.
+
+(* an input statement moves exactly the sections it selects from the universe to the placements of
+   the open output section: they are no longer there for /DISCARD/ or an allowlist entry to take *)
+Theorem C01_not_discarded : forall env ext senv final vma sub outsec ss kp path member sect wild,
+  let ss' := exec_sec_stmt env senv ext final vma sub outsec ss (SInput kp path member sect wild) in
+  l_remaining (s_st ss') =
+    filter (fun u => negb (sel false path member sect wild u)) (l_remaining (s_st ss)) /\
+  l_discarded (s_st ss') = l_discarded (s_st ss) /\
+  exists new, l_placed (s_st ss') = (l_placed (s_st ss) ++ new)%list /\
+              map pl_marker new = map u_marker (filter (sel false path member sect wild) (l_remaining (s_st ss))) /\
+              Forall (fun p => pl_outsec p = outsec) new.
+Proof. exact input_moves. Qed.
+
+(* every input section is, at any time, in exactly one of: placed, discarded, waiting *)
+Theorem C01_conservation : forall env ext senv final script st,
+  Permutation (all_markers (exec_script env senv ext final script st)) (all_markers st).
+Proof. exact script_conserves. Qed.
+
+Theorem C01_placed_not_discarded : forall env senv ext final script st,
+  NoDup (all_markers st) ->
+  let st' := exec_script env senv ext final script st in
+  NoDup (all_markers st') /\
+  forall p, In p (l_placed st') -> ~ In (pl_marker p) (l_discarded st') /\
+                                   ~ In (pl_marker p) (map u_marker (l_remaining st')).
+Proof. exact placed_not_discarded. Qed.
+
+Example C01_link_example :
+  exists w, gen_normal (c01_doc [c01_obj "a.o" []; c01_obj "b.o" []] [".text"; ".data"] [".bss"] []) c01_rt = Ok w /\
+    let st := layout (wo_script w) c09_universe [] in
+    map (fun p => (pl_marker p, pl_addr p, pl_outsec p)) (l_placed st) =
+      [("a_text", 0, ".s"); ("b_text", 10, ".s"); ("a_data", 16, ".s"); ("b_bss", 24, ".s.noload")] /\
+    l_remaining st = []%list /\ l_discarded st = []%list.
+Proof. exact link_example. Qed.
+
+Print Assumptions C01_nothing_unlisted.
+Print Assumptions C01_here_spec.
+Print Assumptions C01_each_once_keys.
+Print Assumptions C01_group_keys.
+Print Assumptions C01_group_asks_each_once.
+Print Assumptions C01_each_once.
+Print Assumptions C01_each_once_deep.
+Print Assumptions C01_each_once_files.
+Print Assumptions C01_each_once_segment.
+Print Assumptions C01_refuted_dropped_section.
+Print Assumptions C01_refuted_duplicate_list.
+Print Assumptions C01_placed_in_section.
+Print Assumptions C01_not_discarded.
+Print Assumptions C01_conservation.
+Print Assumptions C01_placed_not_discarded.
